@@ -118,6 +118,22 @@ func (r *Run) collectChanOps(skipAMR bool) []chanOp {
 			continue
 		}
 		for _, ins := range allInstrs(fn) {
+			// a helper of the fan-out that is handed its channels (`go mapOne(value, mapFunc,
+			// resChan, errChan)`): those operations belong to the protocol R1 checks
+			if skipAMR {
+				var ch ssa.Value
+				switch x := ins.(type) {
+				case *ssa.Send:
+					ch = x.Chan
+				case *ssa.UnOp:
+					if x.Op == token.ARROW {
+						ch = x.X
+					}
+				}
+				if ch != nil && strings.HasSuffix(r.chanIdent(ch, 0), "of common.AsyncMapReduce") {
+					continue
+				}
+			}
 			switch x := ins.(type) {
 			case *ssa.Send:
 				out = append(out, chanOp{fn, ins, r.chanIdent(x.Chan, 0), "send", false})
@@ -667,6 +683,35 @@ func ruleTeardown(r *Run) {
 				tear = sf
 			} else if _, ok := d.Call.Value.(*ssa.Extract); ok {
 				cancelDefer = d // cancel func from context.WithCancel
+			} else if ld, ok := d.Call.Value.(*ssa.UnOp); ok && ld.Op == token.MUL {
+				// the same through the variable's cell (the cancel func is also captured by a literal)
+				if al, ok := ld.X.(*ssa.Alloc); ok {
+					for _, st := range storesTo(al) {
+						if ex, ok := st.Val.(*ssa.Extract); ok {
+							if c, ok := ex.Tuple.(*ssa.Call); ok && strings.HasSuffix(calleeName(&c.Call), "context.WithCancel") {
+								cancelDefer = d
+							}
+						}
+					}
+				}
+			}
+		}
+		// no `defer cancel()` of its own: the deferred teardown calls the cancel func on every path
+		if cancelDefer == nil && tearDefer != nil && tear != nil && len(tear.Blocks) > 0 {
+			callsCancel := func(i ssa.Instruction) bool {
+				ci, ok := i.(ssa.CallInstruction)
+				if !ok {
+					return false
+				}
+				v := ci.Common().Value
+				if ld, ok := v.(*ssa.UnOp); ok && ld.Op == token.MUL {
+					v = ld.X
+				}
+				fv, ok := v.(*ssa.FreeVar)
+				return ok && strings.Contains(fv.Type().String(), "context.CancelFunc")
+			}
+			if ok, _ := mustPass(tear.Blocks[0], 0, callsCancel); ok {
+				cancelDefer = tearDefer
 			}
 		}
 		if upg == nil || tearDefer == nil || cancelDefer == nil {
@@ -675,7 +720,24 @@ func ruleTeardown(r *Run) {
 			okC, okT := true, true
 			for _, ret := range returnsOf(h) {
 				if !instrDominates(cancelDefer, ret) {
-					okC = false
+					// the cancel func lives in the teardown: before the upgrade has succeeded
+					// nothing was started that it would have to stop
+					exempt := false
+					if cancelDefer == tearDefer {
+						exempt = !instrDominates(upg, ret)
+						for _, ref := range *upg.Referrers() {
+							if ex, ok := ref.(*ssa.Extract); ok && isErrorish(ex.Type()) {
+								for _, t := range failureTests(ex) {
+									if t.fail == ret.Block() || t.fail.Dominates(ret.Block()) {
+										exempt = true
+									}
+								}
+							}
+						}
+					}
+					if !exempt {
+						okC = false
+					}
 				}
 				if instrDominates(upg, ret) && !instrDominates(tearDefer, ret) {
 					// returns on the failed-upgrade side are exempt
